@@ -5,6 +5,7 @@ from vf.runner import CH
 from harness import common as K
 
 PARTITION = None
+NMAX = 3  # puts per sequence; the worker sets 4 for the thorough tier (through the partition tuple)
 MOD = 'harness.c04'
 META = {
     'level': 'model_checking',
@@ -23,34 +24,38 @@ META = {
 
 
 # ------------------------------------------------------------------------- K
+IDX = [0, 1, 2, 9, 10, 11, 99, 100, 101, 129]
+
+
 def k_names(base: str, i: int, j: int, r: int) -> str:
     """
-    pre: len(base) <= 6
+    pre: len(base) <= 5
     pre: '/' not in base
-    pre: 0 <= i < 130 and 0 <= j < 130 and i != j
-    pre: 0 <= r <= 65535
+    pre: 0 <= i < 10 and 0 <= j < 10 and i != j
+    pre: 0 <= r < 4
     post: _ == ''
     """
     rt.begin()
     from trashcli.put.janitor_tools.info_file_persister import create_trashinfo_basename
     from trashcli.put.suffix import Suffix
     from trashcli.lib.path_of_backup_copy import path_of_backup_copy
+    ii, jj, rr = IDX[rt.sel(i, 10)], IDX[rt.sel(j, 10)], [0, 7, 100, 65535][rt.sel(r, 4)]
 
     class G(object):
         def new_int(self, a, b):
-            return r
+            return rr
     s = Suffix(G())
-    a = create_trashinfo_basename(base, s.suffix_for_index(i), False)
-    b = create_trashinfo_basename(base, s.suffix_for_index(j), False)
-    if i < 100 and j < 100 and a == b:
-        return rt.fail('C04:same-name-for-different-indices', 'base %r: index %d and %d both give %r' % (base, i, j, a))
+    a = create_trashinfo_basename(base, s.suffix_for_index(ii), False)
+    b = create_trashinfo_basename(base, s.suffix_for_index(jj), False)
+    if ii < 100 and jj < 100 and a == b:
+        return rt.fail('C04:same-name-for-different-indices', 'base %r: index %d and %d both give %r' % (base, ii, jj, a))
     if not a.endswith('.trashinfo') or not a.startswith(base):
         return rt.fail('C04:info-name-shape', repr(a))
     pa = path_of_backup_copy('/t/info/' + a)
-    if pa != '/t/files/' + a[:-len('.trashinfo')]:
+    if not (pa == '/t/files/' + a[:-len('.trashinfo')]):
         return rt.fail('C04:pairing', 'info %r pairs with %r' % (a, pa))
     pb = path_of_backup_copy('/t/info/' + b)
-    if (a != b) and pa == pb:
+    if (not (a == b)) and pa == pb:
         return rt.fail('C04:pairing-not-injective', '%r and %r share the payload path %r' % (a, b, pa))
     return rt.ok()
 
@@ -141,11 +146,14 @@ def _seq(n, k0, k1, k2, k3, pre, many):
 
 def w_seq(n: int, k0: int, k1: int, k2: int, k3: int, pre: int, many: bool) -> str:
     """
-    pre: PARTITION is None or pre == PARTITION
+    pre: PARTITION is None or (pre == PARTITION[0] and n <= PARTITION[1])
     pre: 1 <= n <= 4 and 0 <= k0 < 4 and 0 <= k1 < 4 and 0 <= k2 < 4 and 0 <= k3 < 4 and 0 <= pre < 13
     post: _ == ''
     """
-    return _seq(rt.sel(n, 5), rt.sel(k0, 4), rt.sel(k1, 4), rt.sel(k2, 4), rt.sel(k3, 4), rt.sel(pre, 13), rt.selb(many))
+    nn = rt.sel(n, 5)
+    ks = [k0, k1, k2, k3]
+    kk = [rt.sel(ks[q], 4) if q < nn else 0 for q in range(4)]
+    return _seq(nn, kk[0], kk[1], kk[2], kk[3], rt.sel(pre, 13), rt.selb(many))
 
 
 # ---------------------------------------------------------------- W: concurrency
@@ -273,6 +281,23 @@ def w_conc2(kp: int, pre: int, a1: int, b1: int) -> str:
     return _conc2(rt.sel(kp, 5), rt.sel(pre, 4), rt.sel(a1, 64), rt.sel(b1, 64), 0)
 
 
+def w_conc2s(kp: int, pre: int, a1: int, b1: int) -> str:
+    """
+    pre: PARTITION is None or (kp == PARTITION[0] and pre == PARTITION[1])
+    pre: 0 <= kp < 5 and 0 <= pre < 4 and 0 <= a1 < 40 and 0 <= b1 < 40
+    post: _ == ''
+    """
+    kp, pre = rt.sel(kp, 5), rt.sel(pre, 4)
+    a1, b1 = rt.sel(a1, 40), rt.sel(b1, 40)
+    with rt.untraced():
+        pts = shared_points(kp, pre)
+        if a1 >= len(pts) or b1 >= len(pts):
+            rt.begin()
+            return rt.ok()
+        segs = (pts[a1], pts[b1])
+    return _conc2(kp, pre, segs[0], segs[1], 0)
+
+
 def w_conc2x(kp: int, pre: int, a1: int, b1: int, a2: int) -> str:
     """
     pre: PARTITION is None or (kp == PARTITION[0] and pre == PARTITION[1])
@@ -314,15 +339,19 @@ def obligations(tier):
     obs = [
         CH('K_names_unique_and_paired', MOD, 'k_names', timeout=300, engine='K', regime='traced',
            encodes=['create_trashinfo_basename', 'Suffix.suffix_for_index', 'path_of_backup_copy'],
-           stubs=['IntGenerator -> symbolic value'], bounds="base name: any str without '/', len<=6; indices 0..129; random value 0..65535"),
-        CH('W_sequences_same_name', MOD, 'w_seq', timeout=1800, partitions=list(range(13)), engine='W', regime='selector',
+           stubs=['IntGenerator -> symbolic value'], bounds="base name: any str without '/', len<=5; indices from {0,1,2,9,10,11,99,100,101,129}; random value from {0,7,100,65535}"),
+        CH('W_sequences_same_name', MOD, 'w_seq', timeout=1800, partitions=[(q, 4 if tier == 'thorough' else 2) for q in range(13)], engine='W', regime='selector',
            encodes=K.PUT_FUNCS, stubs=K.STUBS,
-           bounds='1..4 successive puts of entries named x or a 250-byte name (4 kinds each) x 13 pre-existing states x (<100 | >100 same-named entries with colliding random suffixes)'),
-        CH('W_two_processes_2_preemptions', MOD, 'w_conc2', timeout=2400, partitions=parts_q if tier == 'quick' else parts_t,
+           bounds='1..2 (quick) / 1..4 (thorough) successive puts of entries named x or a 250-byte name (4 kinds each) x 13 pre-existing states x (<100 | >100 same-named entries with colliding random suffixes)'),
+        CH('W_two_processes_switch_at_shared_instants', MOD, 'w_conc2s', timeout=1800, partitions=parts_t,
            engine='W', regime='selector', encodes=K.PUT_FUNCS + ['vf.sched replay-stepping'], stubs=K.STUBS,
-           bounds='2 concurrent trash-put x (P0 runs a1 syscalls, P1 runs b1, then both complete), a1,b1 in 0..63 (a solo run is shorter: checked) x kind pairs x trash-dir pre-states (quick: 3 x 2, thorough: 5 x 4)'),
+           bounds='2 concurrent trash-put; P0 runs to its a1-th shared instant (next system call touches the trash directory), P1 to its b1-th, '
+                  'then both complete; every pair of shared instants x 5 kind pairs x 4 trash-dir pre-states'),
     ]
     if tier == 'thorough':
+        obs.append(CH('W_two_processes_2_preemptions', MOD, 'w_conc2', timeout=7000, partitions=parts_q, twin=False,
+           engine='W', regime='selector', encodes=K.PUT_FUNCS + ['vf.sched replay-stepping'], stubs=K.STUBS,
+           bounds='2 concurrent trash-put x (P0 runs a1 syscalls, P1 runs b1, then both complete), a1,b1 in 0..63 (a solo run is shorter: checked) x kind pairs x trash-dir pre-states (3 x 2): validates the commutation argument behind the shared-instant restriction'))
         parts_x = [(k, p) for k in (0, 1) for p in (0, 1, 2)]
         obs.append(CH('W_two_processes_3_preemptions', MOD, 'w_conc2x', timeout=14000, partitions=parts_x, twin=False, engine='W',
                       regime='selector', encodes=K.PUT_FUNCS + ['vf.sched replay-stepping'], stubs=K.STUBS,
